@@ -185,6 +185,64 @@ def check_statics(scratch: Path) -> List[Dict[str, Any]]:
     return out
 
 
+BLANK_SRC = ("class Storage:\n    'Abstract storage.'\n"
+             "    def read(self, key):\n        \"\"\"\n        Return the value.\n\n        Raises KeyError.\n        \"\"\"\n"
+             "    def write(self, key, value):\n        'Store value under key.'\n"
+             "    def flush(self):\n        'Write the pending changes.'\n"
+             "    def close(self):\n        'Close the storage.'\n"
+             "    def sync(self):\n        'Sync.'\n"
+             "class MemoryStorage(Storage):\n    'Keeps everything in a dict.'\n"
+             "    def read(self, key):\n        return 1\n"
+             "    def write(self, key, value):\n        'In memory.'\n"
+             "    def flush(self):\n        \"\"\n        # a blank docstring switches the inherited text off\n"
+             "    def close(self):\n        \"\"\"\n        \"\"\"\n"
+             "    def sync(self):\n        '   '\n        return None\n"
+             "class Deeper(MemoryStorage):\n    'deeper'\n    def flush(self): pass\n    def read(self, key): pass\n    def sync(self): pass\n"
+             "def helper():\n    \"\"\n"
+             "def spaces():\n    '  \\t '\n"
+             "def documented():\n    'Real text.'\n")
+
+_DOC_ORACLE = ("import sys, json, inspect, importlib; sys.path.insert(0, sys.argv[1]); m = importlib.import_module(sys.argv[2]); out = {}\n"
+               "for n, v in vars(m).items():\n"
+               "    if n.startswith('__'): continue\n"
+               "    if inspect.isfunction(v): out[n] = inspect.getdoc(v)\n"
+               "    if inspect.isclass(v):\n"
+               "        for k, w in vars(v).items():\n"
+               "            if inspect.isfunction(w): out[n + '.' + k] = inspect.getdoc(getattr(v, k))\n"
+               "print(json.dumps(out))")
+
+
+def check_blank_docstrings(scratch: Path) -> List[Dict[str, Any]]:
+    """The docstring each function / method carries, INCLUDING the one a method without a docstring takes from the class it
+       overrides (inspect.getdoc); an explicitly blank docstring is a docstring: it switches the inherited text off.
+       'No text' is compared as such (None and '' are the same)."""
+    from pydoctor import epydoc2stan, model
+    base = scratch / "blank"
+    base.mkdir(parents=True)
+    (base / "blankmod.py").write_text(BLANK_SRC)
+    r = subprocess.run([sys.executable, "-I", "-c", _DOC_ORACLE, str(base), "blankmod"], capture_output=True, text=True, timeout=60)
+    if r.returncode != 0:
+        raise RuntimeError("docstring oracle failed: " + r.stderr[-400:])
+    want = json.loads(r.stdout)
+    b = P.build_sources(paths=[base / "blankmod.py"], record_states=False)
+    out: List[Dict[str, Any]] = []
+    for name, doc in sorted(want.items()):
+        o = b["system"].allobjects.get("blankmod." + name)
+        if not isinstance(o, model.Function):
+            out.append({"object": name, "expected": doc, "got": None, "what": "blank docstrings: missing function"})
+            continue
+        got, _src = model.get_docstring(o)
+        if (got or "").strip() != (doc or "").strip():
+            out.append({"object": name, "expected": doc, "got": got, "what": "blank docstrings: docstring (own or inherited)"})
+            continue
+        shown = rendered_text(o)
+        if (doc or "").split() and doc.split()[0] not in shown:
+            out.append({"object": name, "expected": doc, "got": shown[:200], "what": "blank docstrings: as rendered"})
+        if not (doc or "").strip() and any(w in shown for w in ("pending", "Close the storage", "Sync.")):
+            out.append({"object": name, "expected": doc, "got": shown[:200], "what": "blank docstrings: inherited text rendered although switched off"})
+    return out
+
+
 def rendered_text(obj: Any) -> str:
     """The text of the docstring as the pages show it (parsed docstring -> stan -> flattened, tags removed)."""
     import re
@@ -219,4 +277,4 @@ def check(scratch: Path) -> List[Dict[str, Any]]:
             shown = rendered_text(o)
             if doc not in shown:
                 out.append({"object": name, "expected": doc, "got": shown[:200], "what": "docstring as rendered"})
-    return out + check_fields(scratch) + check_overload_neighbours(scratch) + check_rebuild_history(scratch) + check_statics(scratch)
+    return out + check_fields(scratch) + check_overload_neighbours(scratch) + check_rebuild_history(scratch) + check_statics(scratch) + check_blank_docstrings(scratch)
